@@ -30,6 +30,7 @@ LEVEL = "model_checking"
 # program into a class of its own in violation signatures
 TRIGGERS = ("pickValue-on-single-list-source:", "linkMerge-single-source:", "duplicate-source:",
             "merge_flattened-of-nested-list:", "link-type-mismatch",
+            "skipped-scatter-slice-consumed-by-step", "tool-default-seen-by-step-expression",
             "scatter-over-non-array", "scatter-empty:", "dotproduct-unequal-lengths", "dead-end-step")
 
 
